@@ -197,3 +197,80 @@ Theorem C17_state_inventory :
     Mpc.Base.StatePkgs.pkgs_C17 = true.
 Proof. vm_compute. reflexivity. Qed.
 Print Assumptions C17_state_inventory.
+
+(* ---- sizing of the pooled scratch (Circuit/Scratch.v: garbleScratchPool's slabSize loop and New,
+   the slab carving of Circuit.Garble) ---- *)
+From Coq Require Import NArith.
+From Mpc Require Import Base.Label Circuit.Circuit Circuit.Garble Circuit.Scratch Circuit.ScratchProof.
+
+(* For EVERY circuit (well-formed or not), every block function (key), every random source and
+   every content of the recycled wire buffer: the number of rows Gate.garbleInto returns for gate i
+   is the number the slabSize loop counted for its kind (AND 2, OR 3, INV 1, XOR/XNOR 0). *)
+Theorem C17_scratch_rows_by_circuit : forall pi rnd scr c,
+  map (@length label) (gTables (garble pi rnd scr c)) = map (fun g => op_rows (gop g)) (gates c).
+Proof. exact garble_rows_by_circuit. Qed.
+Print Assumptions C17_scratch_rows_by_circuit.
+
+(* Any two garblings of one circuit — different keys, random sources, scratch contents — need the
+   same row counts gate by gate, and their total is the slab length the pool's New allocates: the
+   sizes are a function of the circuit alone, which is why ONE pool per circuit value is sound. *)
+Theorem C17_scratch_same_sizes : forall pi pi' rnd rnd' scr scr' c ng,
+  map (@length label) (gTables (garble pi rnd scr c))
+  = map (@length label) (gTables (garble pi' rnd' scr' c)) /\
+  list_sum (map (@length label) (gTables (garble pi rnd scr c))) = sh_slab (scratch_shape c ng).
+Proof. intros; split; [apply garble_rows_same | apply garble_rows_total]. Qed.
+Print Assumptions C17_scratch_same_sizes.
+
+(* For every circuit with Inputs.Size() <= NumWires and NumGates = len(Gates), every key, random
+   source and every scratch that has the circuit's shape (whatever it contains): Circuit.Garble's
+   slice expressions slab[slabOff:slabOff+count] and header writes gates[i] all stay in range (the
+   model's explicit panic value is not reached), the slab is used up EXACTLY (final slabOff =
+   slabSize), the garbling is the one of the C01 model, and the scratch has the same shape
+   afterwards. *)
+Theorem C17_scratch_in_bounds : forall pi rnd sc c,
+  ninputs c <= nwires c ->
+  has_shape sc (scratch_shape c (length (gates c))) ->
+  exists g sc', garble_into pi rnd sc c = GOk g sc' (slab_size (gates c))
+                /\ g = garble pi rnd (sc_wires sc) c
+                /\ has_shape sc' (scratch_shape c (length (gates c))).
+Proof. exact garble_into_ok. Qed.
+Print Assumptions C17_scratch_in_bounds.
+
+(* Every sequence of garblings (any number, each with its own key and random source) into one
+   recycled scratch of the circuit's shape runs without a panic and leaves a scratch of that shape. *)
+Theorem C17_scratch_reuse_any_history : forall calls sc c,
+  ninputs c <= nwires c ->
+  has_shape sc (scratch_shape c (length (gates c))) ->
+  exists sc', garble_seq calls sc c = Some sc'
+              /\ has_shape sc' (scratch_shape c (length (gates c))).
+Proof. exact garble_seq_ok. Qed.
+Print Assumptions C17_scratch_reuse_any_history.
+
+(* For every well-formed circuit, every index of the wire buffer that Circuit.Garble / garbleInto
+   reads or writes (input wires, Input0, Input1 except for INV, Output) is below the length New
+   gave the buffer. *)
+Theorem C17_scratch_wire_indices_in_range : forall c ng,
+  wf c = true -> Forall (fun i => i < sh_wires (scratch_shape c ng)) (garble_indices c).
+Proof. exact garble_indices_in_range. Qed.
+Print Assumptions C17_scratch_wire_indices_in_range.
+
+(* The slab size is tight: for every circuit, key and random source, a scratch whose slab is
+   shorter than slabSize makes Garble panic at a slab slice expression. *)
+Theorem C17_scratch_small_slab_panics : forall pi rnd sc c,
+  length (sc_slab sc) < slab_size (gates c) ->
+  length (sc_gates sc) = length (gates c) ->
+  exists gi, garble_into pi rnd sc c = GPanic gi 1.
+Proof. exact garble_into_small_slab_panics. Qed.
+Print Assumptions C17_scratch_small_slab_panics.
+
+(* Regression record (seeded defect 9): a pool keyed by (NumWires, NumGates) is unsound — two
+   well-formed circuits with equal counts and different shapes; garbling the heavier one into the
+   lighter one's scratch panics for every key and random source. *)
+Theorem C17_pool_by_counts_refuted :
+  nwires mix_light = nwires mix_heavy /\ length (gates mix_light) = length (gates mix_heavy) /\
+  wf mix_light = true /\ wf mix_heavy = true /\
+  scratch_shape mix_light 1 <> scratch_shape mix_heavy 1 /\
+  forall pi rnd, exists gi,
+    garble_into pi rnd (new_scratch (scratch_shape mix_light 1)) mix_heavy = GPanic gi 1.
+Proof. exact pool_by_counts_refuted. Qed.
+Print Assumptions C17_pool_by_counts_refuted.
